@@ -43,6 +43,7 @@ def background(formulas):
     th = sys.modules.get('pyvc.theory')
     if th is not None:
         ax += th.injection_axioms()
+        ax += th.typeof_axioms(formulas)
         ax += th.pack_axioms()
         if uses(formulas, {'wref', 'referent'}):
             ax += th.weakref_axioms()
@@ -196,3 +197,112 @@ def model_of(ob, timeout_ms=10000, extra=()):
     if r == z3.sat:
         return s.model(), table
     return None, table
+
+
+def export_groups(obs):
+    """Obligations that share their path condition are exported ONCE: the common
+    hypotheses are asserted, each goal i becomes  sel_i => (extra_i and not goal_i)
+    and is checked under the assumption sel_i.  Returns [(smt2 text, [ob, ...])]."""
+    groups = {}
+    order = []
+    for ob in obs:
+        base = ob.hyps[:ob.base_len]
+        key = (ob.decisions, tuple(h.get_id() for h in base))
+        if key not in groups:
+            groups[key] = (base, [])
+            order.append(key)
+        groups[key][1].append(ob)
+    out = []
+    for key in order:
+        base, members = groups[key]
+        goals = []
+        for ob in members:
+            extra = ob.hyps[ob.base_len:]
+            goals.append(z3.And(*(list(extra) + [z3.Not(ob.goal)])))
+        allf = list(base) + goals
+        fs = list(base) + background(allf)
+        sels = [z3.Bool('sel!%d' % i) for i in range(len(members))]
+        fs = fs + [z3.Implies(sl, g) for sl, g in zip(sels, goals)]
+        if uses(fs, set(TRANSCENDENTAL)):
+            fs, _ = ackermannize(fs)
+        s = z3.Solver()
+        for f in fs:
+            s.add(f)
+        out.append((s.to_smt2(), members))
+    return out
+
+
+_sym_cache = {}
+
+
+def symbols(f):
+    """Names of the uninterpreted symbols (functions, constants, heap arrays)."""
+    k = f.get_id()
+    if k in _sym_cache:
+        return _sym_cache[k]
+    out = set()
+    seen = set()
+    stack = [f]
+    while stack:
+        g = stack.pop()
+        if g.get_id() in seen:
+            continue
+        seen.add(g.get_id())
+        if z3.is_quantifier(g):
+            stack.append(g.body())
+        elif z3.is_app(g):
+            d = g.decl()
+            if d.kind() == z3.Z3_OP_UNINTERPRETED:
+                out.add(d.name())
+            stack.extend(g.children())
+    _sym_cache[k] = out
+    return out
+
+
+def export_groups_rel(obs):
+    """Like export_groups, plus the symbol set of every hypothesis and goal so
+    that phase 2 can first try each goal with the RELEVANT hypotheses only
+    (dropping hypotheses is sound for proving; anything but `unsat` is re-checked
+    with all of them)."""
+    out = []
+    for text, members, base_fs, goal_fs in _export(obs):
+        out.append({'smt2': text, 'members': members,
+                    'hyp_syms': [sorted(symbols(f)) for f in base_fs],
+                    'goal_syms': [sorted(symbols(g)) for g in goal_fs]})
+    return out
+
+
+def _export(obs):
+    groups = {}
+    order = []
+    for ob in obs:
+        base = ob.hyps[:ob.base_len]
+        key = (ob.decisions, tuple(h.get_id() for h in base))
+        if key not in groups:
+            groups[key] = (base, [])
+            order.append(key)
+        groups[key][1].append(ob)
+    for key in order:
+        base, members = groups[key]
+        goals = []
+        for ob in members:
+            extra = ob.hyps[ob.base_len:]
+            goals.append(z3.And(*(list(extra) + [z3.Not(ob.goal)])))
+        allf = list(base) + goals
+        fs = list(base) + background(allf)
+        sels = [z3.Bool('sel!%d' % i) for i in range(len(members))]
+        gfs = [z3.Implies(sl, g) for sl, g in zip(sels, goals)]
+        allfs = fs + gfs
+        if uses(allfs, set(TRANSCENDENTAL)):
+            allfs, _ = ackermannize(allfs)
+            # ackermannize appends congruence facts after the goals: keep the goals last
+            n_extra = len(allfs) - len(fs) - len(gfs)
+            if n_extra:
+                cong = allfs[len(fs) + len(gfs):]
+                allfs = allfs[:len(fs)] + cong + allfs[len(fs):len(fs) + len(gfs)]
+            fs = allfs[:len(allfs) - len(gfs)]
+            gfs = allfs[len(allfs) - len(gfs):]
+        s = z3.Solver()
+        for f in fs + gfs:
+            s.add(f)
+        yield s.to_smt2(), members, fs, gfs
